@@ -25,7 +25,8 @@ func ConcatArray(arr *SexpArray, rest []Sexp) (Sexp, error) {
 		return SexpNull, fmt.Errorf("ConcatArray called with nil arr")
 	}
 	var res SexpArray
-	res.Val = arr.Val
+	// copy, so that the result never shares storage with arr
+	res.Val = append([]Sexp{}, arr.Val...)
 	for i, x := range rest {
 		switch t := x.(type) {
 		case *SexpArray:
